@@ -292,3 +292,78 @@ def c03(ctx):
     return check_file_property(ctx, {"C03"}, 100, 2500, extra=extra)
 
 CHECKS.update({"C01": c01, "C03": c03})
+
+# ------------------------------------------------------------------------------------------ C02 / C04
+FILE_RULE = ("well-formed little-endian float-format files written by an independent spec-level encoder (vlib/c3dgen.py) over layout variants "
+             "{leading zeros 0/1/3/512, zeroed parameter prologue, parameter block 2/3/5, records groups-first/params-first/interleaved/shuffled, "
+             "dense or sparse group ids, NUL or blank padded strings, extra zero blocks, labels fewer/more than points, empty ANALOG group, first frame >= 1, "
+             "0-18 events} x content shapes (all four parameter types, 0-7 dimensions incl. empty, descriptions 0-255), plus the three vendor files of the test-suite; "
+             "distinct = (layout description, outcome)")
+
+def file_scripts(ctx, n, wd_tag="@W@"):
+    out = []
+    for i in range(n):
+        seed = ctx.seed * 7919 + i
+        out.append((seed, i))
+    return out
+
+def check_c02_c04(ctx, which, n_quick, n_thorough):
+    from . import c3dgen
+    ctx.audit = leanaudit.audit(ctx.pid, thorough=not ctx.quick)
+    n = n_quick if ctx.quick else n_thorough
+    exe = ctx.exe("asan")
+    vendor = ["/repo/test/c3dFiles/Vicon.c3d", "/repo/test/c3dFiles/Qualisys.c3d"]
+    jobs = [("gen", ctx.seed * 7919 + i) for i in range(n)] + [("vendor", v) for v in vendor]
+    def one(job):
+        wd = run.workdir()
+        kind, arg = job
+        if kind == "gen":
+            path = os.path.join(wd, "in.c3d"); desc, content = c3dgen.make_file(arg, path, big=(arg % 37 == 0))
+        else:
+            path = arg; desc = os.path.basename(arg)
+        big = kind == "vendor"
+        L = ["dumpmode full", "load %s" % path, "specdecode %s" % path, "save @W@/g2.c3d", "load @W@/g2.c3d", "save @W@/g3.c3d", "load @W@/g3.c3d", "save @W@/g4.c3d"]
+        res = run.run_pair(L, exe, wd=wd, timeout=300)
+        fails = []
+        recs = res.hrecs; m = {r_["n"]: r_ for r_ in res.mrecs}
+        try:
+            d1 = run.parse_dump(recs[1]["lines"]) if len(recs) > 1 and recs[1]["res"] == "R ok" else None
+            if which == "C02":
+                sp = m.get(3)
+                if d1 is None: fails.append(("load", {"layout": desc, "got": recs[1]["res"] if len(recs) > 1 else "?"}, "a well-formed file was refused: %s" % (recs[1]["res"] if len(recs) > 1 else "?")))
+                elif sp is None or sp["res"] != "R ok": fails.append(("_spec_undecodable", {}, ""))
+                else:
+                    for clause, where, detail in oracles.c02_compare(d1, oracles.parse_spec(sp["lines"])):
+                        where["layout"] = desc; fails.append((clause, where, detail))
+            else:
+                if d1 is None: fails.append(("_input_refused", {}, ""))
+                else:
+                    d2 = run.parse_dump(recs[4]["lines"]) if len(recs) > 4 and recs[4]["res"] == "R ok" else None
+                    if recs[3]["res"] != "R ok": fails.append(("resave", {"got": recs[3]["res"]}, "saving a loaded file failed: %s" % recs[3]["res"]))
+                    elif d2 is None: fails.append(("reload", {"got": recs[4]["res"], "layout": desc}, "the re-saved file cannot be loaded: %s" % recs[4]["res"]))
+                    else:
+                        df = oracles.diff_content(oracles.content_view(d1), oracles.content_view(d2))
+                        if df: w = dict(df[2]); w["layout"] = desc; fails.append((df[0], w, df[1]))
+                        ev1 = oracles.content_view(d1)["events"]; ev2 = oracles.content_view(d2)["events"]
+                        if ev1 != ev2: fails.append(("events", {"layout": desc}, "header events changed across load -> save -> load"))
+                        try:
+                            b2 = open(os.path.join(wd, "g2.c3d"), "rb").read(); b3 = open(os.path.join(wd, "g3.c3d"), "rb").read(); b4 = open(os.path.join(wd, "g4.c3d"), "rb").read()
+                            if b3 != b4: fails.append(("generation_bytes", {"layout": desc}, "generation 2 -> 3 saves are not byte-identical (first difference at offset %d)" % next((i for i, (x, y) in enumerate(zip(b3, b4)) if x != y), min(len(b3), len(b4)))))
+                        except Exception as e: fails.append(("generation_bytes", {"layout": desc}, "missing generation file: %r" % e))
+        except Exception:
+            import traceback; ctx.notes.append("oracle error: " + traceback.format_exc()[-400:])
+        run.cleanup(wd)
+        return job, desc, L, res, fails
+    for job, desc, L, res, fails in core.pmap(one, jobs):
+        ctx.count("layout_" + desc.split("_pad")[0] if job[0] == "gen" else "vendor")
+        ctx.distinct_key("layout", desc)
+        ctx.record_pair(res, ["# input: %s %s (python3 -c \"from vlib import c3dgen; c3dgen.make_file(%s, 'in.c3d')\")" % (job[0], job[1], job[1])] + L, "file")
+        if len(ctx.samples) < 3: ctx.sample("[%s] %s : %s" % (job[0], desc, " ; ".join(L)))
+        for clause, where, detail in fails:
+            if clause.startswith("_"): ctx.count("oracle" + clause)
+            else: ctx.fail(clause, where, detail, ["# input file: seed %s layout %s" % (job[1], desc)] + L)
+    return core.finish(ctx, FILE_RULE)
+
+def c02(ctx): return check_c02_c04(ctx, "C02", 200, 6000)
+def c04(ctx): return check_c02_c04(ctx, "C04", 200, 6000)
+CHECKS.update({"C02": c02, "C04": c04})
